@@ -12,6 +12,7 @@ Inductive case :=
                                                     7 fasta bytes, source variant "split on newline+'>'" *)
 | CSplit (text : str)                            (* text.splitlines() *)
 | CIter (n : Z) (text : str)                     (* iter_splitlines(path, chunk_size=n) *)
+| CStream (which : Z) (n : Z) (text : str)        (* parser(iter_splitlines(path, chunk_size=n)) for the line-based parsers *)
 | CRound (fmt : Z) (w : Z) (recs : list rec).    (* parser_of_loader(writer(recs)) : 0 fasta | 1 phylip | 2 paml | 3 gde |
                                                     4 fasta with the bytes parser variant 7 *)
 
@@ -19,15 +20,20 @@ Definition vrec (r : rec) : val := VL [VS (fst r); VS (snd r)].
 Definition vrecs (l : list rec) : val := VL (map vrec l).
 Definition vpres (p : pres) : val := match p with POk l => vrecs l | PErr c => VE c end.
 
+(** the line-based parsers on a list of lines (None for the bytes parsers) *)
+Definition parse_lines (which : Z) (lines : list str) : option val :=
+  if which =? 0 then Some (vpres (minimal_parser true fasta_lc lines))
+  else if which =? 1 then Some (vpres (minimal_parser false fasta_lc lines))
+  else if which =? 3 then Some (vpres (minimal_parser true gde_lc lines))
+  else if which =? 4 then Some (vpres (minimal_parser false gde_lc lines))
+  else if which =? 5 then Some (match phylip_parser lines with Some p => vpres p | None => VN end)
+  else if which =? 6 then Some (vpres (paml_parser lines))
+  else None.
+
 Definition parse_text (which : Z) (text : str) : val :=
-  if which =? 0 then vpres (minimal_parser true fasta_lc (py_splitlines text))
-  else if which =? 1 then vpres (minimal_parser false fasta_lc (py_splitlines text))
-  else if which =? 2 then vrecs (bytes_parser text)
-  else if which =? 3 then vpres (minimal_parser true gde_lc (py_splitlines text))
-  else if which =? 4 then vpres (minimal_parser false gde_lc (py_splitlines text))
-  else if which =? 5 then match phylip_parser (py_splitlines text) with Some p => vpres p | None => VN end
+  if which =? 2 then vrecs (bytes_parser text)
   else if which =? 7 then vrecs (bytes_parser_fixed text)
-  else vpres (paml_parser (py_splitlines text)).
+  else match parse_lines which (py_splitlines text) with Some v => v | None => VN end.
 
 Definition run_case (c : case) : val :=
   match c with
@@ -39,6 +45,9 @@ Definition run_case (c : case) : val :=
   | CParse which text => parse_text which text
   | CSplit text => VL (map VS (py_splitlines text))
   | CIter n text => if n <=? 0 then VE 2 else VL (map VS (iter_splitlines (chunks_of (Z.to_nat n) text)))
+  | CStream which n text =>
+      if n <=? 0 then VE 2
+      else match parse_lines which (iter_splitlines (chunks_of (Z.to_nat n) text)) with Some v => v | None => VN end
   | CRound fmt w recs =>
       if w <=? 0 then VE 2 else
       let wn := Z.to_nat w in
